@@ -82,6 +82,7 @@ def run(chk):
                 chk.add("C19.provenance", key, v, d, where=where_of(b),
                         sample=dict(obligation=key, draws=it.rng_calls, verdict=v) if n in (3, 8) else None)
     seed_rule(chk, facts)
+    sequence_rule(chk)
     ns = len(facts.raw["statics"])
     chk.add("C19.no-static", "no static item in the crate", PROVED if ns == 0 else UNDECIDED, "%d statics" % ns)
     if chk.tier == "thorough":
@@ -90,6 +91,48 @@ def run(chk):
         chk.add("C19.feature", "random() absent without the rand feature", PROVED if not has else REFUTED, ", ".join(has))
     chk.notes["explanation"] = "bit provenance of random(): every table bit < 2^n is a distinct fresh generator bit, every other bit constant 0; rand itself is trusted"
     chk.notes["n_range"] = [0, nmax]
+
+
+def sequence_rule(chk):
+    """C19.seq: a history of draws on one thread.  random() is called repeatedly on one abstract state (storage that
+    outlives a call - thread_local!/static buffers, cursors - is part of it) and every bit below 2^n of every draw
+    must be a generator bit that no earlier draw of the history used: a draw that hands out words of an earlier draw
+    again (a pool whose cursor wraps without a refill) repeats tables on that thread."""
+    env = Env(F.load("dbg"))
+    plans = [(12, 3), (9, 10), (6, 70)] if chk.tier == "quick" else [(12, 4), (11, 4), (10, 6), (9, 10), (8, 18), (7, 34), (6, 70), (3, 70), (0, 70)]
+    for kind in ("dyn", "static"):
+        K = env.kinds[kind]
+        b = K.methods.get("random")
+        if b is None:
+            continue
+        for n, draws in plans:
+            key = "%s::random n=%d, %d consecutive draws on one thread" % (K.adt, n, draws)
+            try:
+                it = env.interp()
+                st = State()
+                used = {}
+                v, d = PROVED, ""
+                for k in range(draws):
+                    outs = it.call_body(b, [usize(n)] if kind == "dyn" else [], st, K.env(n))
+                    o, v, d = single_return(outs)
+                    if o is None:
+                        break
+                    st = o.state
+                    for p_, bt in enumerate(bits_of_table(K.words(it, o.state, o.value), n)[:1 << n]):
+                        if bt is None or len(bt[0]) != 1 or not B.ATOMS.name(bt[0][0]).startswith("rng"):
+                            v, d = UNDECIDED, "draw %d: bit %d is not a plain copy of a generator bit" % (k + 1, p_)
+                            break
+                        a_ = bt[0][0]
+                        if a_ in used and used[a_][0] != k:
+                            v, d = REFUTED, ("draw %d on a thread hands out generator output already handed out by draw %d of the same history "
+                                             "(bit %d is the generator bit %s, which was bit %d there): tables repeat" % (k + 1, used[a_][0] + 1, p_, B.ATOMS.name(a_), used[a_][1]))
+                            break
+                        used[a_] = (k, p_)
+                    if v != PROVED:
+                        break
+            except Undecided as e:
+                v, d = UNDECIDED, e.cause
+            chk.add("C19.seq", key, v, d, where=where_of(b))
 
 
 SEEDED_RE = re.compile(r"(SeedableRng::(seed_from_u64|from_seed)$)|(rngs?::(mock::)?\w*Rng\w*::new$)|(Pcg\w*::new$)|(ChaCha\w*::new$)")
